@@ -16,7 +16,7 @@ void h_morton_copy_elem(void)
 {
   ND_SIZE_T in_sizes = nondet_nd(), in_t = nondet_nd();
   copy_ghosts(in_t);
-  verif_ghost_k = nondet_unsigned();
+  verif_ghost_m = nondet_size_t();
   verif_b_size = nondet_size_t();
   morton_copy_elem(0, in_sizes, in_t);
   VERIF_REACH();
